@@ -22,7 +22,7 @@ REQUIRED = ["solve.ok"]
 ASSUMPTIONS = ["tol(.) = 1e-6*T_max(s) + eps per presentation (exact oracle); pairs whose T is unavailable contribute only flag and separated-state strategy comparisons",
                "strategy differences that consist only of exact ties whose reported floats round to different cells are attributed to the open C04 finding (tie-split-by-convergence), as are their downstream reward differences"]
 TIMEOUT = 1800
-TABLE = [("G-ACY", 250), ("G-CYC", 300), ("G-SLOW", 60), ("G-DEAD", 350), ("G-TIE", 100), ("G-TIEC", 100), ("G-LEX", 120), ("G-TINY", 40), ("G-TINYB", 100), ("G-INIT0F", 30), ("G-HALF", 40), ("G-LATE", 40), ("G-TINY", 60), ("G-CORR", 120), ("G-DIGIT", 150), ("G-GAP", 60), ("G-RETRY", 60)]
+TABLE = [("G-ACY", 250), ("G-CYC", 300), ("G-SLOW", 60), ("G-DEAD", 350), ("G-TIE", 100), ("G-TIEC", 100), ("G-LEX", 120), ("G-TINY", 40), ("G-TINYB", 100), ("G-INIT0F", 30), ("G-HALF", 40), ("G-LATE", 40), ("G-TINY", 60), ("G-CORR", 120), ("G-DIGIT", 150), ("G-GAP", 60), ("G-RETRY", 60), ("G-FINREP", 100)]
 
 
 def make_transform(rng, gd, kind):
